@@ -221,3 +221,38 @@ Example C07_dt_example :
   c07_transfer tm 1 (map N.of_nat (seq 1 24)) (repeat 165%N 24)
   = [1;2;3;4;165;165;165;165; 165;165;165;165;165;165;165;165; 17;165;165;165;165;165;165;165]%N.
 Proof. repeat split; vm_compute; reflexivity. Qed.
+
+(* ---- extent: arrays of count elements are walked with stride extent (C07_dt_content_mem), so extent must be sizeof(T).
+   The typemap record carries the extent produced by the literal constructor sequence (struct, then resized). ---- *)
+(* the traits ending in MPI_Type_create_resized(tmp, 0, sizeof(T)): extent = sizeof for EVERY member type map (also members shipped as raw
+   bytes, nested pairs) and every layout *)
+Theorem C07_dt_traits_extent : forall (t1 t2 tG tPLI : c07_tmap) d1 d2 szp da szpli dg dl szip,
+  c07_tm_extent (c07_traits_pair t1 t2 d1 d2 szp) = szp /\
+  c07_tm_extent (c07_traits_plocalindex da szpli) = szpli /\
+  c07_tm_extent (c07_traits_indexpair tG dg dl tPLI szip) = szip.
+Proof. exact P_traits_extent. Qed.
+Print Assumptions C07_dt_traits_extent.
+
+(* FieldVector / bigunsignedint (struct without resize): extent = displacement + n * sizeof(K) whenever the strictest basic alignment divides it *)
+Theorem C07_dt_traits_extent_fv : forall n szk alk dfv nb dbu,
+  (Nat.modulo (dfv + n * szk) (Nat.max 1 alk) = 0 ->
+     c07_tm_extent (c07_traits_fieldvector n (c07_dt_basic szk alk) dfv) = dfv + n * szk) /\
+  (Nat.modulo (dbu + nb * 2) 2 = 0 -> c07_tm_extent (c07_traits_bigunsignedint nb dbu) = dbu + nb * 2).
+Proof. exact P_traits_extent_fv. Qed.
+Print Assumptions C07_dt_traits_extent_fv.
+
+(* every type map accepted by the measured predicate (checked for every registered type on every run, together with MPI's own
+   MPI_Type_get_extent = (0, sizeof)) has extent = sizeof *)
+Theorem C07_dt_wf_extent : forall tm sz, c07_tm_wfb tm sz = true -> c07_tm_extent tm = sz.
+Proof. exact P_wfb_extent. Qed.
+Print Assumptions C07_dt_wf_extent.
+
+(* the resize step is necessary: pair<long long,int> as a bare struct has extent 12 /= 16, is rejected by the predicate, and misplaces the
+   second element of a two-element transfer; with the resize it is accepted *)
+Theorem C07_dt_pair_unresized_refuted :
+  let t := c07_dt_struct [(1, 0, c07_traits_generic 8); (1, 8, c07_dt_basic 4 4)] in
+  c07_tm_extent t = 12 /\ c07_tm_wfb t 16 = false /\
+  c07_tm_wfb (c07_traits_pair (c07_traits_generic 8) (c07_dt_basic 4 4) 0 8 16) 16 = true /\
+  exists src dst, c07_transfer t 2 src dst <> c07_spec_transfer (c07_tm_entries t) 16 2 src dst.
+Proof. exact P_pair_unresized_refuted. Qed.
+Print Assumptions C07_dt_pair_unresized_refuted.
